@@ -153,3 +153,15 @@ claim("C19",
       TB + AX_R + ", Classical_Prop.classic. Trusted additionally: projection of the shared event list on one vehicle, module-level "
       "patch of float() in generate_from_csv and the generate_trip recorder.",
       "Coq proof (invariant over the trip loop) + exact differential correspondence + sampled generator predicates", "5.19")
+claim("C09",
+      "Theorems: the remaining-step count -(dt // -interval) is the ceiling (no step lost, none invented, positive iff the "
+      "departure lies ahead); greedy's request aims exactly at the desired SoC and every limited request below it; balanced's k equal "
+      "steps deliver the need; and the induction lifting a per-step 'reach the target or charge at full power' dichotomy to the "
+      "departure guarantee min(desired - tol, n full-power steps). PARTIAL / sampled: the look-ahead strategies are not modelled, and "
+      "the per-step dichotomy is not proved for the battery model; the guarantee itself is evaluated on generated feasible one-connector "
+      "scenarios for all six strategies against an independent feasibility oracle. Known findings: minimum-power sliver, "
+      "constant-power planning on tapering curves.",
+      "Trusted: Coq kernel; the harness's scenario generator, recorder around Strategy.step and feasibility oracle (vehicle alone at "
+      "full station power using the implementation's Battery); float execution with the property's 1e-4 tolerance. " + AX_R,
+      "Coq proofs of the planning arithmetic and the guarantee induction + sampled end-to-end service predicate", "5.9",
+      category="exploration")
